@@ -287,6 +287,16 @@ func runRT(cfg vsched.Config, sc *RTScn, twice bool) *RTResult {
 					}
 				}
 			}
+		case "fin-during-trace", "rstack-during-trace":
+			// the target closes (half-close: it keeps acknowledging) or resets its side while the probes are going out: a
+			// FIN|ACK / RST|ACK on the traced connection, without SACK blocks, is not "the target acknowledging without
+			// blocks" - selective acknowledgement stays available
+			form := map[string]string{"fin-during-trace": "tcpfinack", "rstack-during-trace": "rstack"}[sc.Capability]
+			for _, s := range scns {
+				if s.Variant == "sack" {
+					s.Inject = append(s.Inject, Inject{OnTTL: s.First, AnswerTTL: s.First, Form: form, From: SackAddr.String(), DelayUs: 2500, Tag: "teardown"})
+				}
+			}
 		case "plain-acks", "plain-acks-with-timestamps":
 			// (with timestamps: both options were negotiated, the acknowledgements carry NOP NOP TIMESTAMPS and no SACK option)
 			form := "plainack"
